@@ -428,7 +428,10 @@ def callH : Handler := fun inp impl => do
   let t := (steps.zip obs).foldl (fun t (p : Json × Json) => callStep t p.1 p.2) ({} : CallTrack)
   let cls := (["forward", "notfound", "internal"].filter t.classes.contains).foldl
     (fun a c => if a.isEmpty then c else a ++ "+" ++ c) ""
-  let tag := if t.failTag.isEmpty then (if t.reused > 0 then cls ++ "+reuse" else cls) else t.failTag
+  -- classes of the configuration and of the pace of the calls (neither changes what the model expects)
+  let slow := steps.any fun st => getNatD st "pause_ms" > 0 || getNatD ((getObj? st "script").getD (Json.mkObj [])) "delay_ms" > 0
+  let sfx := (if getNatD inp "cfg" > 0 then "+shortopts" else "") ++ (if slow then "+slow" else "")
+  let tag := if t.failTag.isEmpty then (if t.reused > 0 then cls ++ "+reuse" else cls) ++ sfx else t.failTag
   return ({ model := Json.arr t.model.toArray, agree := t.agree, spec := t.spec,
             nontrivial := t.forwards > 0, tag := tag } : Verdict).toJson
 
